@@ -11,6 +11,9 @@ open Tetl.C20
 
 /-! ## pair / tuple values -/
 
+/-- a value-initialised pair / tuple holds zeros -/
+def dflt (ks : List EK) : List Int := List.replicate ks.length 0
+
 def copy (t : List El) : List Int × Nat := (t.map (·.2), (t.map (·.1.copyCost)).sum)
 
 def move (t : List El) : List Int × List Int × Nat :=
@@ -79,6 +82,11 @@ def dEq (a b : Int) : Bool := a != NaN && b != NaN && a == b
 def dCmp (a b : Int) : Ord3 :=
   if a == NaN || b == NaN then .unordered else if a < b then .less else if b < a then .greater else .equiv
 
+/-- the input class of the known finding F-C20-pair-rel-unordered: the three-way comparison of the two pairs of
+    doubles is unordered (the same predicate as `classify` in checks/props/c20.py) -/
+def unorderedPair (a b : Int × Int) : Bool :=
+  a.1 == NaN || b.1 == NaN || (a.1 == b.1 && (a.2 == NaN || b.2 == NaN))
+
 /-- tuples of the same arity are equal iff all elements are -/
 def tupleEq (a b : List Int) : Bool := decide (a = b)
 
@@ -87,44 +95,95 @@ def tupleEq (a b : List Int) : Bool := decide (a = b)
 /-- all elements of all tuples, in order -/
 def tupleCat (ts : List (List Int)) : List Int := ts.flatten
 
-/-! ## calls: the target is called exactly once, with the arguments as given -/
+/-! ## calls
+
+What the property demands of one call through a wrapper is a predicate on the outcome of that call
+(`CalledOnce`): the call log has exactly one entry, the entry is for the wrapped target, called through an object
+expression of the prescribed category with exactly the given arguments (how each arrives, and its value, in order),
+and the result handed back is the target's.
+
+For the run-time validation against libstdc++ (R2) the prescribed outcome is also given as executable
+functions; they are written from the wording of [func.require], [refwrap.invoke], [func.bind.partial],
+[func.not.fn], [tuple.apply] and P0792 and use none of the model's call functions.  (For these forwarding
+wrappers the standard's definition and the header's code are the same few lines, so model and executable spec
+coincide almost literally; see `TetlProofs/C20/Lemmas.lean`, "calls".) -/
+
+structure CalledOnce {ρ : Type} (tid : Nat) (self : Option Cat) (args : List Arg) (res : ρ) (out : ρ × Log) : Prop where
+  /-- exactly one call was made -/
+  once : out.2.length = 1
+  /-- it was a call of the wrapped target, through that object expression, with those arguments -/
+  entry : ∀ c ∈ out.2, c.tid = tid ∧ c.self = self ∧ c.args = args
+  /-- the result is handed back unchanged -/
+  result : out.1 = res
+
+/-- the single call of target `tid` -/
+def theCall (tid : Nat) (self : Option Cat) (args : List Arg) : Int × Log :=
+  (resultOf tid (args.map (·.2)), [{ tid := tid, self := self, args := args }])
 
 /-- the object expression `INVOKE` uses for a pointer to member ([func.require] 1.1-1.6) -/
 def objExpr : ObjK → Cat
-  | .obj c => c                 -- `t1.*f`
-  | .refw c => c.asLvalue       -- `t1.get().*f`
-  | .ptr c => c.asLvalue        -- `(*t1).*f`
+  | .obj c => c                                                   -- `t1.*f`
+  | .refw c => (match c with | .l | .r => .l | .c | .k => .c)     -- `t1.get().*f`: `get()` is an lvalue
+  | .ptr c => (match c with | .l | .r => .l | .c | .k => .c)      -- `(*t1).*f`: `*t1` is an lvalue
 
-def invoke (f : Callee) (args : List (Option Cat × Int)) : Int × Log :=
+/-- the target `INVOKE(f, ...)` calls and the category of the object expression it is called through;
+    `none`: a pointer to data member, which calls nothing -/
+def target? : Callee → Option (Nat × Option Cat)
+  | .fn tid => some (tid, none)
+  | .fob tid c => some (tid, some c)
+  | .memfn tid o => some (tid, some (objExpr o))
+  | .memdata _ _ => none
+
+def invoke (f : Callee) (args : List Arg) : Int × Log :=
   match f with
-  | .fn tid => callTarget tid none args
-  | .fob tid c => callTarget tid (some c) args
-  | .memfn tid o => callTarget tid (some (objExpr o)) args
-  | .memdata _ v => (v, [])
+  | .memdata _ v => (v, [])                -- `t1.*f`: the member itself, nothing is called
+  | .fn tid => theCall tid none args
+  | .fob tid c => theCall tid (some c) args
+  | .memfn tid o => theCall tid (some (objExpr o)) args
 
 /-- `reference_wrapper<T>::operator()`: `INVOKE(get(), args...)`, `get()` is an lvalue `T&` -/
-def refWrapCall (tid : Nat) (cst : Bool) (args : List (Option Cat × Int)) : Int × Log :=
-  callTarget tid (some (if cst then .c else .l)) args
+def refWrapCall (tid : Nat) (cst : Bool) (args : List Arg) : Int × Log :=
+  theCall tid (some (if cst then .c else .l)) args
 
-/-- `function_ref`: the referenced entity is invoked as an lvalue (of the const-ness bound);
-    the arguments reach it as `forward<Args>(args)...` -/
-def functionRefCall (callee : Callee) (args : List (Option Cat × Int)) : Int × Log :=
-  -- `paramArrives`: a by-value parameter reaches the target as an rvalue, a reference parameter unchanged
+/-- a parameter of the signature `R(Args...)` reaches the target as `forward<Args>(args)`: a by-value parameter
+    as an rvalue, a reference parameter as it is -/
+def arrives : Arg → Arg
+  | (.val, v) => (.fwd .r, v)
+  | (.fwd q, v) => (.fwd q, v)
+  | (.wrap q, v) => (.wrap q, v)
+
+/-- the entity a `function_ref` refers to and how it is reached: a function object is an lvalue of the
+    const-ness it was bound with; a function or a member pointer as `INVOKE` prescribes -/
+def frefTarget? : Callee → Option (Nat × Option Cat)
+  | .fob tid c => some (tid, some (match c with | .l | .r => .l | .c | .k => .c))
+  | other => target? other
+
+/-- `function_ref<R(Args...)>::operator()(args...)` -/
+def functionRefCall (callee : Callee) (args : List Arg) : Int × Log :=
   match callee with
-  | .fob tid c => callTarget tid (some c.asLvalue) (args.map paramArrives)
-  | other => invoke other (args.map paramArrives)
+  | .memdata _ v => (v, [])
+  | other =>
+    match frefTarget? other with
+    | some (tid, self) => theCall tid self (args.map arrives)
+    | none => (0, [])
+
+/-- how a bound argument is handed on by a `q`-qualified `bind_front` wrapper: as a `q`-qualified
+    `decay_t<Arg>`; a `reference_wrapper` stays a `reference_wrapper` ([func.bind.partial]) -/
+def boundArrives (q : Cat) : Bound → Arg
+  | .val v => (.fwd q, v)
+  | .refw v => (.wrap q, v)
 
 /-- `bind_front(f, bound...)(args...)` called through a `q`-qualified wrapper:
     `invoke(q-qualified fd, q-qualified bound..., args...)` -/
-def bindFrontCall (mk : Cat → Callee) (q : Cat) (bound : List Int) (args : List (Option Cat × Int)) : Int × Log :=
-  invoke (mk q) (bound.map (fun v => (some q, v)) ++ args)
+def bindFrontCall (mk : Cat → Callee) (q : Cat) (bound : List Bound) (args : List Arg) : Int × Log :=
+  invoke (mk q) (bound.map (boundArrives q) ++ args)
 
 /-- `not_fn(f)(args...)` = `!invoke(q-qualified fd, args...)` -/
-def notFnCall (tid : Nat) (q : Cat) (pred : Bool) (args : List (Option Cat × Int)) : Bool × Log :=
-  (!pred, (callTarget tid (some q) args).2)
+def notFnCall (tid : Nat) (q : Cat) (pred : Bool) (args : List Arg) : Bool × Log :=
+  (!pred, [{ tid := tid, self := some q, args := args }])
 
 /-- `apply(f, t)` = `invoke(f, get<0>(t), …, get<n-1>(t))`, the elements with the tuple's category -/
-def apply (f : Callee) (tc : Cat) (t : List Int) : Int × Log := invoke f (t.map (fun v => (some tc, v)))
+def apply (f : Callee) (tc : Cat) (t : List Int) : Int × Log := invoke f (t.map (fun v => (.fwd tc, v)))
 
 /-! ## the owning wrapper: an object either holds a target or is empty -/
 
